@@ -34,7 +34,9 @@ TARGETS = ["ParseInt", "ParseAbbr", "ParseOffset", "ParseDateTime", "ParsePosixS
 # second unit: the data-side helpers of parse() in src/time_zone_format.cc (ParseInt<T> is instantiated for int and long)
 SRC2 = "src/time_zone_format.cc"
 TARGETS2 = ["ParseInt", "ParseOffset", "ParseSubSeconds"]
-UWIDTH = {"unsigned long": 64, "unsigned long long": 64, "unsigned int": 32}
+SRC3 = "src/time_zone_info.cc"
+TARGETS3 = ["Decode8", "Decode32", "Decode64"]
+UWIDTH = {"unsigned long": 64, "unsigned long long": 64, "unsigned int": 32, "unsigned char": 8, "unsigned short": 16}
 
 
 def asts_of(fn):
@@ -267,6 +269,8 @@ class Fn:
                 lv = inner[-1]
                 if strip(lv).get("kind") in ("IntegerLiteral", "CharacterLiteral"):
                     return b, t, "Z"
+                if not ss and dw > sw:
+                    return b, t, "Z"                          # unsigned to a wider signed type
                 if sw <= 8 and ss and dw > sw:
                     return b, t, "Z"
                 x = self.fresh()
@@ -406,6 +410,23 @@ class Fn:
                     f = {"+": "add", "-": "sub", "*": "mul"}[op]
                     return b1 + b2 + [B("do %s <- %s%d %s %s ;;\n" % (x, f, max(w, 32), t1, t2))], x, "Z"
                 return b1 + b2 + [B("let %s := Z.modulo (%s %s %s) (2 ^ %d) in\n" % (x, t1, op, t2, w))], x, "Z"
+            if op in ("<<", ">>", "|", "&", "^"):
+                w, sg = self.width(n)
+                if sg and op in ("<<", ">>"):
+                    raise Untranslatable("shift of a signed value")
+                x = self.fresh()
+                if op == "<<":
+                    sh = strip(inner[1])
+                    if sh.get("kind") != "IntegerLiteral" or not (0 <= int(sh["value"]) < w):
+                        raise Untranslatable("shift by a non-constant or out-of-range amount")
+                    return b1 + b2 + [B("let %s := Z.modulo (Z.shiftl %s %s) (2 ^ %d) in\n" % (x, t1, t2, w))], x, "Z"
+                if op == ">>":
+                    sh = strip(inner[1])
+                    if sh.get("kind") != "IntegerLiteral" or not (0 <= int(sh["value"]) < w):
+                        raise Untranslatable("shift by a non-constant or out-of-range amount")
+                    return b1 + b2, "(Z.shiftr %s %s)" % (t1, t2), "Z"
+                f = {"|": "Z.lor", "&": "Z.land", "^": "Z.lxor"}[op]
+                return b1 + b2, "(%s %s %s)" % (f, t1, t2), "Z"
             if op in ("/", "%"):
                 v = strip(inner[1])
                 if v.get("kind") != "IntegerLiteral" or int(v["value"]) <= 0:
@@ -1009,6 +1030,10 @@ def main():
         "  if (0 <=? i) && (i <? Z.of_nat (length l)) then OK (nth (Z.to_nat i) l 0) else Err OOB.\n\n"
     r2 = run_unit(SRC2, TARGETS2, out2, pre2, "sf_")
     r1["format_cc"] = r2
+    pre3 = pre2.replace("SourceFmtParse.v", "SourceDecode.v").replace("src/time_zone_format.cc (ParseInt<int>, ParseInt<long>, ParseOffset, ParseSubSeconds)", "src/time_zone_info.cc (Decode8, Decode32, Decode64)") \
+        .replace("into the input text", "into the file's bytes") + "Definition narrow64 := chk64.\nDefinition narrow16 (z : Z) : res Z := if (-32768 <=? z) && (z <=? 32767) then OK z else Err Overflow.\n\n"
+    r3 = run_unit(SRC3, TARGETS3, os.path.join(os.path.dirname(out1), "SourceDecode.v"), pre3, "sd_")
+    r1["info_cc_decode"] = r3
     print(json.dumps(r1))
 
 
